@@ -569,6 +569,36 @@ def _axis_rule(ctx, repo, rm, rd):
         return labels == RIQ and not bad, f'padded records have layout {labels}; mismatched stores: {bad}: expected (R, I, Q) filled slice by slice with (I, Q) blocks'
     site(f'{sb.qual}._run:pad-records', sb.mod.rel, pads[0].lineno, s6)
 
+    # S6b  SimulatorBase._run: what one repetition contributes per key is a block (instances, qubits)
+    def s6b():
+        bad, seen = [], 0
+        for lp in [l for l in ast.walk(fn6) if isinstance(l, ast.For) and isinstance(l.iter, ast.Call) and isinstance(l.iter.func, ast.Attribute) and l.iter.func.attr == 'items'
+                   and isinstance(l.iter.func.value, ast.Attribute) and l.iter.func.value.attr in ('records', 'channel_records')]:
+            if not (isinstance(lp.target, ast.Tuple) and len(lp.target.elts) == 2 and isinstance(lp.target.elts[1], ast.Name)):
+                raise Unknown('loop over the per-key records has an unexpected target')
+            vname = lp.target.elts[1].id
+            per_key = Lst('I', Lst('Q', 0)) if lp.iter.func.value.attr == 'records' else Lst('I', 0)
+            for c in ast.walk(lp):
+                if isinstance(c, ast.Call) and isinstance(c.func, ast.Attribute) and c.func.attr == 'append' and isinstance(c.func.value, ast.Subscript) and c.args:
+                    it = AxisInterp({vname: per_key})
+                    def norm(x):
+                        # a list literal with one element is a unit axis
+                        if isinstance(x, tuple):
+                            if len(x) != 1:
+                                raise Unknown('list literal with several elements appended to the records')
+                            return Lst('1', norm(x[0]))
+                        if isinstance(x, Lst):
+                            return Lst(x.label, norm(x.elem))
+                        return x
+                    labels = as_arr(norm(it.ev(c.args[0]))).labels
+                    seen += 1
+                    if labels not in (('I', 'Q'), ('I', '1')):
+                        bad.append(f'`{ast.unparse(c)[:60]}` contributes a block with layout {labels}')
+        if not seen:
+            raise Unknown('no per-repetition append into the records found')
+        return not bad, f'{bad}: every repetition must contribute (instances, qubits) per key, a channel record being one instance with a single digit'
+    site(f'{sb.qual}._run:per-repetition-block', sb.mod.rel, fn6.lineno, s6b)
+
     # S7  ZerosSampler
     zs = repo.cls('cirq.work.zeros_sampler.ZerosSampler')
     fn7 = zs.methods.get('run_sweep')
